@@ -8,7 +8,7 @@ rows    one wide segment table per (configuration, rotation): every site (autoso
         export_bed x {all, ploidy, variant} and export_vcf, for the full product ploidy 1..6 x reference sex x sample sex
         x naming x PAR genome {none, grch37, grch38};
 tables  every table of <= 3 (quick) / <= 4 (thorough) rows over class {autosome, X, PAR-X, Y} x 4 copy-number states,
-        under every configuration within 2 (1 for the longest tables) deviations of the default in ploidy, sexes, naming,
+        under every configuration within 2 (thorough: 1, quick: 0 for the longest tables) deviations of the default in ploidy, sexes, naming,
         genome, first start {0, 1, 100}, row index (default / shifted), cn column present / absent, --cnr bins given;
 cli     the same wide tables written to .cns files and exported through `cnvkit.py export bed|vcf` argument parsing,
         every configuration; plus every spelling of the sample sex, -i / --label-genes, two input files, --cnr;
@@ -172,8 +172,8 @@ def wide_segments(naming, has_cn, rot, straddle=False):
     return segs
 
 
-def n_rotations(has_cn):
-    return len(WIDE_CN) if has_cn else len(WIDE_Q)
+# (cn column?, rotations): blocks of 8 rotations so that every case costs the same (even shard load)
+ROT_BLOCKS = ((True, list(range(8))), (False, list(range(8))), (False, list(range(8, 16))))
 
 
 # ---------------------------------------------------------------------------------------------
@@ -267,9 +267,9 @@ def describe(tier):
         "configuration, table | file sequence); non-trivial = the listing both keeps and drops a segment / a record is emitted / "
         "a multi-file export with a duplicate ID or a deviating file",
         "bound": {
-            "rows": "46 sites (3 autosomal starts 0/1/100, X and Y at 0, 11 PAR-edge sites per build and sex chromosome) x cn 0..7 (8 rotations) "
+            "rows": "%d sites (3 autosomal starts 0/1/100, X and Y at 0, 11 PAR-edge sites per build and sex chromosome, coinciding ones once)" % len(wide_sites(False)) + " x cn 0..7 (8 rotations) "
             "or 16 values of 2^log2 in 0.01..3 (16 rotations) x 144 configurations" + ("; plus the PAR-straddling site set" if t else ""),
-            "tables": ("<= 3 rows x <= 2 deviations, 4 rows x <= 1 deviation" if t else "<= 2 rows x <= 2 deviations, 3 rows x <= 1 deviation")
+            "tables": ("<= 3 rows x <= 2 deviations, 4 rows x <= 1 deviation" if t else "<= 2 rows x <= 2 deviations, 3 rows x the default configuration")
             + " of 9 dimensions (ploidy 1..6, reference sex, sample sex, naming, genome, first start, index, cn column, cnr)",
             "cli": "144 configurations x cn column present/absent x " + ("all rotations" if t else "rotation 0") + "; 1 extras case",
             "seg": ("<= 4 files over 6 segment tables, 5 files over 3 tables" if t else "<= 3 files over 6 segment tables") + " x all ID partitions x renumbering x {api, cli}",
@@ -336,8 +336,8 @@ def cases(tier):
                     yield {"check": "tables", "classes": list(classes), "cfg": c}
     # 2. wide tables: the full configuration product
     for c in configs:
-        for has_cn in (True, False):
-            yield {"check": "rows", "cfg": c, "has_cn": has_cn, "straddle": False}
+        for has_cn, rots in ROT_BLOCKS:
+            yield {"check": "rows", "cfg": c, "has_cn": has_cn, "rots": rots, "straddle": False}
     # 3. multi-sample formats
     names = list(SEG_TABLES)
     for k in range(1, (4 if t else 3) + 1):
@@ -356,17 +356,16 @@ def cases(tier):
     # 4. command line
     yield {"check": "cli-extras"}
     for c in configs:
-        for has_cn in (True, False):
-            rots = list(range(n_rotations(has_cn))) if t else [0]
+        for has_cn, rots in ROT_BLOCKS if t else ((True, [0]), (False, [0])):
             yield {"check": "cli", "cfg": c, "has_cn": has_cn, "rots": rots}
-    # 5. longest tables, <= 1 deviation
-    for c in deviations(1):
+    # 5. longest tables: default configuration only (quick) / <= 1 deviation (thorough)
+    for c in deviations(1 if t else 0):
         for classes in class_multisets(kmax2 + 1):
             yield {"check": "tables", "classes": list(classes), "cfg": c}
     if t:
         for c in configs:
-            for has_cn in (True, False):
-                yield {"check": "rows", "cfg": c, "has_cn": has_cn, "straddle": True}
+            for has_cn, rots in ROT_BLOCKS:
+                yield {"check": "rows", "cfg": c, "has_cn": has_cn, "rots": rots, "straddle": True}
 
 
 def run(case, ctx):
@@ -461,7 +460,7 @@ def vcf_text(ctx, op, text, segs, mc, sub):
 def run_rows(case, ctx):
     c, has_cn = case["cfg"], case["has_cn"]
     mc = model_cfg(c)
-    for rot in range(n_rotations(has_cn)):
+    for rot in case["rots"]:
         segs = wide_segments(c["naming"], has_cn, rot, case["straddle"])
         cna = build_cna(segs, has_cn)
         sub = {"rotation": rot, "segments": compact(segs)}
@@ -699,7 +698,7 @@ def run_seg(case, ctx):
         for enum in (False, True):
             sub = {"ids": ids, "enumerate_chroms": enum}
             for via in ("api", "cli"):
-                op = f"seg@{via}" + ("/enumerate" if enum else "")
+                op = ("seg.enumerate" if enum else "seg") + "@" + via
                 if via == "api":
                     got = ctx.call(lambda: seg_rows_api(EXP.export_seg(files, chrom_ids=enum)))
                     tol = 1e-9
